@@ -29,6 +29,7 @@ func main() {
 	procRuns := flag.Int("procruns", 0, "how many standard and how many tie histories also run every replica in its own process (c01)")
 	rtRuns := flag.Int("rtruns", 0, "how many of the standard histories (the last ones) register two runtimes (c01)")
 	runtimes := flag.Bool("runtimes", false, "replica mode: runtimes genesis")
+	faultRuns := flag.Int("faultruns", 0, "extra histories with injected one-off faults inside Process/PrepareProposal (c01)")
 	govRuns := flag.Int("govruns", 0, "extra histories with the real upgrade manager and a passing governance upgrade proposal (c01)")
 	upgRuns := flag.Int("upgruns", 0, "how many of the standard histories (the first ones) contain a consensus upgrade (c01)")
 	upgradeF := flag.Bool("upgrade", false, "replica mode: upgrade backend")
@@ -45,7 +46,7 @@ func main() {
 			defer os.RemoveAll(d)
 			*out = d
 		}
-		c01Main(*seed, *out, *blocks, *runs, *replay, *noBg, *tieRuns, *tieBlocks, *procRuns, *rtRuns, *upgRuns, *govRuns)
+		c01Main(*seed, *out, *blocks, *runs, *replay, *noBg, *tieRuns, *tieBlocks, *procRuns, *rtRuns, *upgRuns, *govRuns, *faultRuns)
 	case "replica":
 		replicaMain(*seed, *tie, *runtimes, *upgradeF, *idx, !*noBg, *noDebugFlag)
 	case "smoke2":
